@@ -5,6 +5,7 @@ Tie: (T) the bodies of the nine loops over plugins / callbacks / results / liste
 never leaves the loop; (K) generated candidate sets (importable or not, failing to construct, switched off
 by configuration, any order values) through the real load_plugins, compared inside Coq with Plugins.load.
 Search: plugins of every kind raising at every callback, differentially against the fault-free run."""
+import collections
 import importlib
 import os
 import sys
@@ -229,6 +230,14 @@ def isolation(ctx, n):
         if closed != want_open:
             ctx.fail("spans closed for %r, opened for %r: a failing close() of one plugin left another's span open" % (
                 sorted(closed), sorted(want_open)), j, tag="span-close")
+        # ... and each healthy plugin is asked for ONE span for the one hit, which is closed ONCE (a neighbour that fails must
+        # not make the agent hand a healthy plugin's span around a second time)
+        n_open = collections.Counter(p.pname for w, _t, _i, p in world.log if w == "span-open")
+        n_close = collections.Counter(p.pname for w, _t, _i, p in world.log if w == "span-close")
+        for name in sorted(want_open & opened & closed):
+            if n_open[name] != 1 or n_close[name] != 1:
+                ctx.fail("plugin %s: %d span(s) created and %d close() call(s) for one hit; next to a failing plugin it is still "
+                         "one span, closed once" % (name, n_open[name], n_close[name]), j, tag="span-once")
         mets = [(p["proc"], p["name"]) for w, _t, _i, p in world.log if w == "metric"]
         want_m = [("metrics%d" % i, m) for m in ("m1", "m2") for i in range(nmet) if not bad_met[i]]
         if sorted(mets) != sorted(want_m) and not healthy_metrics_complete():
